@@ -1,6 +1,7 @@
 package h
 
 import (
+	"encoding/json"
 	"fmt"
 	"os"
 	"testing"
@@ -49,4 +50,35 @@ func TestDetDiff(t *testing.T) {
 		return
 	}
 	fmt.Println("no mismatch")
+}
+
+// TestTraceReplay (debug aid): VERIF_TRACE_REPLAY=<replay or scenario file> VERIF_PROP=<id> prints the event log.
+func TestTraceReplay(t *testing.T) {
+	f := os.Getenv("VERIF_TRACE_REPLAY")
+	if f == "" {
+		t.Skip()
+	}
+	p := registry[os.Getenv("VERIF_PROP")]
+	b, err := os.ReadFile(f)
+	if err != nil {
+		t.Fatal(err)
+	}
+	var rf ReplayFile
+	if err := json.Unmarshal(b, &rf); err != nil {
+		t.Fatal(err)
+	}
+	sc := p.New()
+	if err := json.Unmarshal(rf.Scenario, sc); err != nil {
+		t.Fatal(err)
+	}
+	o := p.Run(t, sc, true)
+	if o.Res != nil {
+		for _, e := range o.Res.Events {
+			fmt.Println(e)
+		}
+	}
+	for _, v := range o.Violations {
+		fmt.Println("VIOLATION", v.Signature, v.Detail)
+	}
+	fmt.Println("inconclusive:", o.Inconclusive)
 }
